@@ -174,7 +174,8 @@ class Context:
             else:
                 known_hits.setdefault(hit["key"], (hit, []))[1].append(key)
         lines = []
-        rdir = os.path.join(VERIF, "replays", self.pid)
+        outdir = os.environ.get("VERIF_OUT") or VERIF      # experiments on scratch copies write elsewhere
+        rdir = os.path.join(outdir, "replays", self.pid)
         for pat, (hit, keys) in known_hits.items():
             n = sum(len(bykey[k]) for k in keys)
             lines.append("KNOWN-FINDING: property=%s %s [key=%s, %d occurrence(s) in this run]"
@@ -221,8 +222,8 @@ class Context:
             "wall_s": round(wall, 3),
             "violations": len(new_keys),
         }
-        os.makedirs(os.path.join(VERIF, "evidence"), exist_ok=True)
-        with open(os.path.join(VERIF, "evidence", self.pid + ".json"), "w", encoding="utf-8") as f:
+        os.makedirs(os.path.join(outdir, "evidence"), exist_ok=True)
+        with open(os.path.join(outdir, "evidence", self.pid + ".json"), "w", encoding="utf-8") as f:
             json.dump(ev, f, indent=1, ensure_ascii=False)
         for ln in lines:
             print(ln)
